@@ -171,6 +171,9 @@ class ScheduledTraceEvent(AppTraceEvent):
 
     @property
     def event_data(self):
+        if self.why is None:
+            # No reason (e.g. placement published at master start).
+            return self.where
         return '%s:%s' % (self.where, self.why)
 
 
